@@ -4,9 +4,10 @@
    format (keys < 2^32 bytes and valid for the key type, contents < 2^64 bytes, payloads < 2^32
    bytes, versions < 2^64).  Inv = Live0 /\ DiskOk /\ FsWf. *)
 From Cas Require Import History.
-From CasProofs Require Import StoreFS StoreInv StoreWrite StoreHist DiskInv Recover RestartHist.
+From CasProofs Require Import StoreFS StoreInv StoreWrite StoreHist DiskInv Recover RestartHist PreCreateHist.
 
-(* any history with restarts anywhere, any number of times, from an empty directory: the outputs
+(* any history with restarts anywhere, any number of times, from an empty directory (either
+   choice of pre_create_cas_dirs): the outputs
    of the API calls equal those of the ordered map on the history with the restarts erased, every
    open succeeds, and the invariant (memory, CAS, on-disk log and snapshot) holds at the end *)
 Theorem C02_restart_transparent :
@@ -14,7 +15,7 @@ Theorem C02_restart_transparent :
     (forall b, length (H b) = 32%nat) -> (forall b, Forall (fun x => x < 256) (H b)) ->
   forall cfg : config, 0 < c_n cfg ->
   forall ops : list op,
-    c_pre cfg = false -> c_n cfg < 2 ^ 64 ->
+    c_n cfg < 2 ^ 64 ->
     hist_r cfg ops -> NoCollide H (hist_contents ops) -> hist_fits cfg [] ops ->
     N.of_nat (length ops) < 2 ^ 32 - 1 ->
     exists (os0 : option ostats) (outs : list out) (hd' : handle) (w' : world),
@@ -25,7 +26,7 @@ Theorem C02_restart_transparent :
       /\ opens_ok ops outs
       /\ h_cfg hd' = cfg
       /\ Inv H cfg (h_mem hd') (wfs w') (fold_left (spec_step (key_cmp (c_kt cfg))) (erase_restarts ops) []).
-Proof. exact RestartHist.C02_restart_transparent. Qed.
+Proof. exact PreCreateHist.C02_restart_transparent_gen. Qed.
 Print Assumptions C02_restart_transparent.
 
 (* keys, reference counts and statistics are identical with and without the restarts *)
@@ -34,7 +35,7 @@ Theorem C02_observations_equal :
     (forall b, length (H b) = 32%nat) -> (forall b, Forall (fun x => x < 256) (H b)) ->
   forall cfg : config, 0 < c_n cfg ->
   forall ops : list op,
-    c_pre cfg = false -> c_n cfg < 2 ^ 64 ->
+    c_n cfg < 2 ^ 64 ->
     hist_r cfg ops -> NoCollide H (hist_contents ops) -> hist_fits cfg [] ops ->
     N.of_nat (length ops) < 2 ^ 32 - 1 ->
     exists r1 hd1 w1 r2 hd2 w2,
@@ -42,7 +43,7 @@ Theorem C02_observations_equal :
       /\ run_ops H None (OpOpen cfg false :: erase_restarts ops) (init_world empty_fs None) = (r2, Some hd2, w2)
       /\ km (idx (h_mem hd1)) = km (idx (h_mem hd2)) /\ rc (idx (h_mem hd1)) = rc (idx (h_mem hd2))
       /\ ub (idx (h_mem hd1)) = ub (idx (h_mem hd2)) /\ tb (idx (h_mem hd1)) = tb (idx (h_mem hd2)).
-Proof. exact RestartHist.C02_observations_equal. Qed.
+Proof. exact PreCreateHist.C02_observations_equal_gen. Qed.
 Print Assumptions C02_observations_equal.
 
 (* one restart, from any state satisfying the invariant: close + open (replay skipping versions
